@@ -6,7 +6,7 @@
    [whole_deleted] says that an applying request has no intervals. *)
 From Coq Require Import NArith ZArith List Bool Lia Sorted.
 Import ListNotations.
-From Verif Require Import Lib.Corr Lib.Misc_Cmp Gen.C48 Model.C48 Proofs.C48.
+From Verif Require Import Lib.Corr Lib.Misc_Cmp Gen.C48 Model.C48 Proofs.C48 Proofs.C48_complete.
 Open Scope Z_scope.
 
 (* Never removes a sample outside the requested intervals or from a series the
@@ -39,6 +39,35 @@ Proof.
   - intros s Hs W. destruct (rewrite_keeps re reqs ss s Hs W) as [ivs [_ H]]. eexists. exact H.
 Qed.
 Print Assumptions C48_series_kept_iff.
+
+(* Exactness: for well-formed blocks and requests whose intervals are non-empty
+   (Mint <= Maxt; any order, overlap or adjacency), the rewritten block is
+   EXACTLY the filter specification: series wholly deleted vanish, every other
+   series keeps, in order, precisely the samples outside the intervals of the
+   applying requests, and every rewritten chunk is non-empty with
+   MinTime/MaxTime equal to its first/last sample. This is the boolean predicate
+   the check evaluates on the implementation's own output. *)
+Theorem C48_exact : forall reqs rt ss,
+  Forall series_ok ss -> reqs_ok reqs ->
+  pred_ok (CDel reqs rt ss (rewrite (re_of rt) reqs ss) false) = true.
+Proof. intros reqs rt ss H1 H2. simpl. apply rewrite_exact; assumption. Qed.
+Print Assumptions C48_exact.
+
+(* Readable form of the removal half: the samples of a rewritten series are the
+   original ones not covered by an interval of an applying request; so every
+   sample inside such an interval is removed. *)
+Theorem C48_removes_inside : forall re reqs s ivs,
+  series_ok s -> reqs_ok reqs ->
+  del_loop re reqs (fst s) [] = Some ivs ->
+  concat (map snd (series_chunks ivs (snd s)))
+  = filter (fun sm => negb (covered (spec_intervals re reqs (fst s)) (fst sm))) (concat (snd s)).
+Proof.
+  intros re reqs s ivs Hs Hr E.
+  apply (removes_inside re reqs [s] s (series_chunks ivs (snd s)) Hs Hr (or_introl eq_refl)).
+  - congruence.
+  - exists ivs. split; [exact E | reflexivity].
+Qed.
+Print Assumptions C48_removes_inside.
 
 (* Before the repair the statement is false: a chunk whose samples are all
    deleted by two different intervals (no single interval covers the chunk)
